@@ -154,7 +154,8 @@ func fetchPkgEnums(pa *packages.Package) enumsMap {
 		if !isConst {
 			continue
 		}
-		named, isNamed := decl.Type().(*types.Named)
+		// a constant may be declared through an alias of its type (type U = T; const X U = 1)
+		named, isNamed := types.Unalias(decl.Type()).(*types.Named)
 		if !isNamed {
 			continue
 		}
